@@ -13,7 +13,14 @@ Part case (all times are integer timeline positions = divisions):
    "slurs": [[i, j], ...]              slur from note i to note j  (i or j may be None = dangling)
    "syms": {"i": {...}}                symbolic duration given to note i (consistent with its length)
    "ops": "ATURS"}                     A add_measures, T tie_notes, U find_tuplets,
-                                       R fill_rests(measurewise), G fill_rests(global), S sanitize_part
+                                       R fill_rests(measurewise), G fill_rests(global), S sanitize_part,
+                                       Q read symbolic_duration / duration_from_symbolic of every note
+
+Edit case (k = "edit"): a part case (one divisions value) plus
+   "edit": ["span", i, s2, e2]         after the first pass note i is moved to [s2, e2] through the public
+                                       API (Part.remove / Part.add), or
+           ["div", q2]                 Part.set_quarter_duration(0, q2)
+   "ops2": "ATURS"                     second pass, run on the edited part
 """
 from fractions import Fraction as F
 
@@ -206,3 +213,51 @@ def ref_rows(case):
             dur += notes[j][1] - notes[j][0]
         rows.append((n[0], dur, pitch_of(n[2])[3], n[3], "n%d" % i, n[4]))
     return sorted(rows)
+
+
+# ---------------------------------------------------------------------------------------------
+# edit cases: the part after a first pass and a user edit
+
+
+def in_one_bar(case, s, e):
+    """does [s, e] lie inside one measure of the tiling add_measures has to produce?"""
+    til = ref_tiling(case)
+    return til is not None and any(a <= s and e <= b for a, b, _ in til)
+
+
+def untyped_notes(case):
+    """indices of the notes to which no operation of a pass may give a stored symbolic duration,
+    whatever reading of 'untyped' the library uses: no pre-existing tie or given symbolic duration,
+    a plain or dotted notated value (so neither a tuplet candidate nor in need of splitting) and
+    inside one bar (so not split at a bar line)"""
+    tied = set(i for t in case.get("ties") or [] for i in t)
+    out = []
+    for i, n in enumerate(case["notes"]):
+        if i in tied or str(i) in (case.get("syms") or {}):
+            continue
+        q = div_at(case["dv"], n[0])
+        if plain_sym(n[1] - n[0], q) is not None and in_one_bar(case, n[0], n[1]):
+            out.append(i)
+    return out
+
+
+def edited_case(case):
+    """part case describing the edited part at the start of the second pass: the measures are those
+    the first pass had to produce (or the given ones when it did not add measures), the notes and
+    divisions those after the edit"""
+    c2 = dict(k="part", dv=[list(x) for x in case["dv"]], ts=[list(x) for x in case["ts"]],
+              notes=[list(n) for n in case["notes"]], ops=case["ops2"])
+    if "A" in case["ops"]:
+        c2["ms"] = [[s, e] for s, e, _ in ref_tiling(case)]
+    else:
+        c2["ms"] = [list(x) for x in case["ms"]]
+    ed = case["edit"]
+    if ed[0] == "span":
+        c2["notes"][ed[1]][0] = ed[2]
+        c2["notes"][ed[1]][1] = ed[3]
+    elif ed[0] == "div":
+        assert len(c2["dv"]) == 1
+        c2["dv"] = [[0, ed[1]]]
+    else:
+        raise ValueError(ed)
+    return c2
